@@ -486,6 +486,12 @@ SKELETONS = [
         ("fallback.read", r"\.race_fallback\s*\.read\s*\("), ("data.read", r"\.data\s*\.read\s*\("),
         ("data.write", r"\.data\s*\.write\s*\("), ("fallback.write", r"\.race_fallback\s*\.write\s*\("),
         ("prev.execute", r"\.execute\s*\("), ("action", r"\baction\s*\(\s*info")]),
+    # the chained call: the special dispositions are excluded first, whatever the flags say; then the flags
+    # choose the calling convention
+    ("signal-hook-registry/src/lib.rs", "execute#1", [
+        ("guard.special", r"if\s+fptr\s*!=\s*0\s*&&\s*fptr\s*!=\s*libc::SIG_DFL\s*&&\s*fptr\s*!=\s*libc::SIG_IGN\s*\{"),
+        ("if", r"\bif\b"), ("else", r"\belse\b"), ("siginfo.clear", r"sa_flags\s*&\s*siginfo\s*==\s*0"),
+        ("call.1", r"action\s*\(\s*sig\s*\)"), ("call.3", r"action\s*\(\s*sig\s*,\s*info\s*,\s*data\s*\)")]),
     ("src/low_level/channel.rs", "send", [
         ("dequeue.empty", r"dequeue\s*\(\s*&self\.empty"), ("dequeue.full", r"dequeue\s*\(\s*&self\.full"),
         ("cell.write", r"\.get\s*\(\s*\)\s*=\s*Some"), ("cell.take", r"\.take\s*\("),
